@@ -178,6 +178,21 @@ func init() {
 		Threads: [][]SOp{{opWriteCasBlind("k", "a1")}, {opWriteCasBlind("j", "b1")}, {opWriteCasBlind("k", "c1")}},
 		Check:   checkOrder("F-order-3w")}, 1, 3)
 
+	// a WithMeta write whose CAS is ahead of the clock, against a regular writer: the clock has to absorb
+	// the injected CAS atomically with the commit, or a later commit is delivered with a smaller CAS
+	opMetaAhead := SOp{Name: "SetWithMeta k (CAS ahead of the clock)", Do: func(w *SWorld, st *TState) (string, []uint64) {
+		_, cur, _ := w.C(st.T).GetRaw("k")
+		nc := uint64(vrt.Epoch) + 0x4000000
+		err := w.C(st.T).SetWithMeta(ctx, "k", cur, nc, 0, nil, []byte(`{"m":1}`), sgbucket.FeedDataTypeJSON)
+		if err != nil {
+			nc = 0
+		}
+		return fmt.Sprintf("%s «0»", ec(err)), []uint64{nc}
+	}}
+	variants(Scenario{Name: "F-order-meta", Prop: []string{"C08"}, Keys: []string{"k", "j"}, Setup: func(w *SWorld) { setupSet("k", "k0")(w); startFeeds(w) },
+		Threads: [][]SOp{{opMetaAhead}, {opWriteCasBlind("j", "b1"), opWriteCasBlind("j", "b2")}},
+		Check:   checkOrder("F-order-meta")}, 1, 2)
+
 	// C09(b): a feed started with backfill while writers commit must not lose a key's final version
 	opStartBackfillLive := SOp{Name: "StartDCPFeed(backfill=0, live)", Do: func(w *SWorld, st *TState) (string, []uint64) {
 		f := NewFeedRec("bf+live")
@@ -210,6 +225,19 @@ func init() {
 	variants(Scenario{Name: "B-start-vs-writer", Prop: []string{"C09"}, Keys: []string{"k", "j"}, Setup: setupSet("j", "j0"),
 		Threads: [][]SOp{{opStartBackfillLive}, {opSet("k", "k1"), opSet("j", "j1")}},
 		Check:   checkNoGap("B-start-vs-writer")}, 1, 2)
+	// two feeds starting at once, then a write: neither registration may be lost
+	opStartNamed := func(name string) SOp {
+		return SOp{Name: "StartDCPFeed(" + name + ")", Do: func(w *SWorld, st *TState) (string, []uint64) {
+			f := NewFeedRec("bf+live")
+			f.Name = "bf+live"
+			err := w.C(st.T).StartDCPFeed(ctx, sgbucket.FeedArguments{ID: name, Backfill: 0, Terminator: f.Term, DoneChan: f.Done}, f.callback, nil)
+			w.Feeds = append(w.Feeds, f)
+			return ec(err), nil
+		}}
+	}
+	variants(Scenario{Name: "B-two-starts", Prop: []string{"C09", "C16"}, Keys: []string{"k", "j"}, Setup: setupSet("j", "j0"),
+		Threads: [][]SOp{{opStartNamed("f1"), opSet("k", "k1")}, {opStartNamed("f2")}},
+		Check:   checkNoGap("B-two-starts")}, 1, 2)
 	variants(Scenario{Name: "B-start-vs-2writers", Prop: []string{"C09"}, Keys: []string{"k", "j"}, Setup: setupSet("j", "j0"),
 		Threads: [][]SOp{{opStartBackfillLive}, {opSet("k", "k1")}, {opSet("j", "j1"), opDelete("j")}},
 		Check:   checkNoGap("B-start-vs-2writers")}, 2)
